@@ -422,28 +422,31 @@ ares_status_t ares_reinit(ares_channel_t *channel)
     return ARES_SUCCESS;
   }
   channel->reinit_pending = ARES_TRUE;
-  ares_channel_unlock(channel);
 
   if (ares_threadsafety()) {
+    /* The thread handle is shared with any other caller of ares_reinit() (the
+     * event thread calls it on configuration changes), so it is only touched
+     * while holding the channel lock: a second caller could otherwise get past
+     * the reinit_pending check as soon as the new thread finished, while this
+     * caller is still storing the handle. */
+
     /* clean up the prior reinit process's thread.  We know the thread isn't
-     * running since reinit_pending was false */
+     * running since reinit_pending was false, it no longer needs the lock */
     if (channel->reinit_thread != NULL) {
       void *rv;
       ares_thread_join(channel->reinit_thread, &rv);
       channel->reinit_thread = NULL;
     }
 
-    /* Spawn a new thread */
+    /* Spawn a new thread, it can't get the lock until we release it */
     status =
       ares_thread_create(&channel->reinit_thread, ares_reinit_thread, channel);
     if (status != ARES_SUCCESS) {
-      /* LCOV_EXCL_START: UntestablePath */
-      ares_channel_lock(channel);
-      channel->reinit_pending = ARES_FALSE;
-      ares_channel_unlock(channel);
-      /* LCOV_EXCL_STOP */
+      channel->reinit_pending = ARES_FALSE; /* LCOV_EXCL_LINE: UntestablePath */
     }
+    ares_channel_unlock(channel);
   } else {
+    ares_channel_unlock(channel);
     /* Threading support not available, call directly */
     ares_reinit_thread(channel);
   }
